@@ -197,6 +197,33 @@ func init() {
 		fr.i.ex.reached(concStr(fr, args[0], "vp.Reached"))
 		return nil
 	})
+	reg(vpPath+".Setup", func(fr *frame, args []value) value {
+		// run a concrete, deterministic constructor once per worker, outside the undo journal, so
+		// that the state it builds persists across paths
+		key := concStr(fr, args[0], "vp.Setup")
+		i := fr.i
+		if v, ok := i.setupCache[key]; ok {
+			return v
+		}
+		if i.ex.local != nil {
+			panic(localFail{"setup in pure call"})
+		}
+		savedJ := i.journalOn
+		i.journalOn = false
+		i.initing++
+		nd := len(i.ex.draws)
+		np := len(i.ex.pc)
+		defer func() {
+			i.initing--
+			i.journalOn = savedJ
+		}()
+		v := i.call(fr, fr.callPos, args[1], nil)
+		if len(i.ex.draws) != nd || len(i.ex.pc) != np {
+			panic(unsupported("vp.Setup function drew symbolic input or branched on it"))
+		}
+		i.setupCache[key] = v
+		return v
+	})
 	reg(vpPath+".Symbolic", func(fr *frame, args []value) value { return true })
 	reg(vpPath+".SymbolicMapOrder", func(fr *frame, args []value) value {
 		ex := fr.i.ex
